@@ -31,7 +31,9 @@ RULE = (
     "one case = one seeded simulated run of collocate_filesets / "
     "Collocations.search: tape-drawn pair of filesets (templates, file lengths "
     "1-24 h, gaps, 1-4 points per file in spatial clusters), thresholds, period, "
-    "processes 1-4, bundle mode, output kind, optional unreadable file, and a "
+    "processes 1-4, bundle mode, output kind, optional unreadable file (with "
+    "skip_file_errors; in a quarter of those runs without it, where only "
+    "termination, soundness and exactly-once are demanded), and a "
     "tape-decided interleaving of parent, children, reader tasks and queue "
     "deliveries. Non-trivial = the brute-force oracle expects >= 1 collocation "
     "and (>= 2 tasks were runnable at some decision or a fault fired). "
@@ -466,6 +468,7 @@ def run_one(tape, only=None):
         sim.stats["decisions_gt1"] > 0 or bool(st.fired))
     res["wdigest"] = digest_of(w)
     res["edigest"] = sim.digest()
+    res["trace"] = sim.log[:1500]
     res["sim_seconds"] = sim.now
     res["kinds"] = [f"procs={w['processes']}", f"bundle={w['bundle']}",
                     f"output={w['output']}", f"policy={policy['kind']}",
